@@ -16,12 +16,16 @@ Proof.
   right. apply Nat.leb_gt in E. repeat split; try reflexivity. lia.
 Qed.
 
+Definition regate (s : lstate) : lstate := set_gate s (l_gate_count s) (l_gate_n s) false.
+Lemma retry_cases min s o : lstep min s LRetry o = s \/ lstep min s LRetry o = fire (regate s) (o_live_in o).
+Proof. cbn [lstep]. destruct (_ && _ && _ && _); [right; reflexivity|left; reflexivity]. Qed.
+
 (* ---------- C07 ---------- *)
 (* the hand count moves only by +1 and only when the gate's completion opens a hand, which needs:
    no unsettled hand, table neither closed nor released, blinds set, not a break *)
 Theorem count_only_by_open min s op o :
   l_gc (lstep min s op o) = l_gc s \/
-  (l_gc (lstep min s op o) = l_gc s + 1 /\ (op = LFinish \/ op = LTimeout) /\
+  (l_gc (lstep min s op o) = l_gc s + 1 /\ (op = LFinish \/ op = LTimeout \/ op = LRetry) /\
    l_has_game s = false /\ l_released s = false /\ status_eqb (l_status s) SClosed = false /\
    is_set (l_blind s) = true /\ is_break (l_blind s) = false /\ l_status (lstep min s op o) = SPlaying).
 Proof.
@@ -35,10 +39,15 @@ Proof.
   - destruct (l_gate_ready s); [left; reflexivity|].
     destruct (fire_cases s (o_live_in o)) as [E|[_ [C [G [St _]]]]]; [rewrite E; left; reflexivity|].
     right. unfold can_open in C. repeat (apply andb_true_iff in C; destruct C as [C ?]).
-    repeat split; try assumption; try (right; reflexivity);
+    repeat split; try assumption; try (right; left; reflexivity);
       repeat match goal with H : negb _ = true |- _ => apply negb_true_iff in H end; assumption.
   - destruct (_ && _ && _); [|left; reflexivity]. unfold settle_continue.
     destruct (l_released s); [left; reflexivity|]. destruct (_ || _); left; reflexivity.
+  - destruct (_ && _ && _ && _); [|left; reflexivity].
+    destruct (fire_cases (regate s) (o_live_in o)) as [E|[_ [C [G [St _]]]]]; [fold (regate s); rewrite E; left; reflexivity|].
+    right. fold (regate s). unfold can_open in C. cbn in C. repeat (apply andb_true_iff in C; destruct C as [C ?]).
+    repeat split; try assumption; try (right; right; reflexivity);
+      repeat match goal with H : negb _ = true |- _ => apply negb_true_iff in H end; assumption.
 Qed.
 
 (* macro edges of the status for a table left to itself *)
@@ -70,6 +79,9 @@ Proof.
     destruct (l_has_game s && o_hand_closed o); [|rewrite status_eqb_refl; reflexivity].
     destruct (l_status s) eqn:E; cbn in P; try discriminate P.
     unfold settle_continue. destruct (l_released s); [cbn; reflexivity|]. destruct (is_break (l_blind s) || (o_alive o <? min)%nat); cbn; reflexivity.
+  - destruct (_ && _ && _ && _); [|rewrite status_eqb_refl; reflexivity]. fold (regate s).
+    destruct (fire_cases (regate s) (o_live_in o)) as [E|[_ [_ [_ [St _]]]]]; [rewrite E; cbn; rewrite status_eqb_refl; reflexivity|].
+    rewrite St. destruct (l_status s); cbn in *; try reflexivity; discriminate.
 Qed.
 
 (* after a hand has been settled no hand state is left *)
@@ -129,6 +141,8 @@ Proof.
     destruct (fire_cases s (o_live_in o)) as [E|[_ [_ [_ [_ [_ G]]]]]]; [rewrite E in H; exfalso; apply H; reflexivity|exact G].
   - exfalso. apply H. destruct (_ && _ && _); [|reflexivity]. unfold settle_continue.
     destruct (l_released s); [reflexivity|]. destruct (_ || _); reflexivity.
+  - destruct (_ && _ && _ && _); [|exfalso; apply H; reflexivity]. fold (regate s) in *.
+    destruct (fire_cases (regate s) (o_live_in o)) as [E|[_ [_ [_ [_ [_ G]]]]]]; [rewrite E in H; exfalso; apply H; reflexivity|exact G].
 Qed.
 
 (* while the same hand runs, no operation - in particular no blind update - changes the level it
@@ -144,6 +158,8 @@ Proof.
     unfold can_open. rewrite G. reflexivity.
   - destruct (_ && _ && _); [|reflexivity]. unfold settle_continue. destruct (l_released s); [reflexivity|].
     destruct (_ || _); reflexivity.
+  - destruct (_ && _ && _ && _); [|reflexivity]. unfold fire. cbn. destruct (_ <=? _)%nat; [reflexivity|].
+    unfold can_open. cbn. rewrite G. reflexivity.
 Qed.
 
 Fixpoint lrun (min : nat) (s : lstate) (l : list (lop * oracle)) : lstate :=
@@ -160,7 +176,8 @@ Proof.
     - destruct (l_started s); exact G.
     - destruct (l_gate_ready s); [exact G|]. unfold fire. destruct (_ <=? _)%nat; [exact G|]. unfold can_open. rewrite G. exact G.
     - destruct (l_gate_ready s); [exact G|]. unfold fire. destruct (_ <=? _)%nat; [exact G|]. unfold can_open. rewrite G. exact G.
-    - rewrite Hc, andb_false_r. exact G. }
+    - rewrite Hc, andb_false_r. exact G.
+    - destruct (_ && _ && _ && _); [|exact G]. unfold fire. cbn. destruct (_ <=? _)%nat; [exact G|]. unfold can_open. cbn. rewrite G. exact G. }
   destruct (IH _ G' Ft) as [I1 I2]. split; [|exact I2].
   rewrite I1. apply the_level_of_a_running_hand_is_fixed; exact G.
 Qed.
